@@ -342,22 +342,29 @@ def r5_noop(ctx, F):
     ctx.check(len(dl) == 1, rule, 'noop-ordered-still-consumes', b,
               good='the delivered message is consumed on the non-elided path',
               bad='next_state: Deliver arm does not consume the message')
-    # is_no_op: Borrowed AND empty output
+    # is_no_op / is_no_op_with_timer as truth tables over their atoms (state still Borrowed? output empty /
+    # exactly one command? that command re-arms the timer?): the order of the tests, helper functions,
+    # early returns and `&&` chains do not matter
+    from common import bool_fn_table, comparisons
+
+    def borrowed_atom(g):
+        sws = [sw for sw in g.switches if sw.kind == 'variant' and noref(sw.on).kind == 'arg' and noref(sw.on).key == 1]
+
+        def cons(val):
+            return [(sws, 'Borrowed' if val else 'Owned')]
+        return (cons, lambda v: False), sws
+
+    def call_atom(g, c):
+        sws = g.switches_on_call(c)
+        return (lambda val: [(sws, val)], lambda v: v.kind == 'call' and v.key == c.bb and not v.projs)
     f = F.body('actor::is_no_op')
     ctx.touched(f)
     emp = f.calls_to('Vec::is_empty')
-    sws = [sw for sw in f.switches if sw.kind == 'variant']
-    okb = any('Borrowed' in [l for (l, t) in sw.edges if isinstance(l, str)] or
-              any(isinstance(l, frozenset) and 'Borrowed' in l for (l, t) in sw.edges) for sw in sws)
-    # a `true` result requires both: the block assigning true to _0 is dominated by Borrowed edge and is_empty
-    ok = len(emp) == 1 and okb
+    (ba, bsws) = borrowed_atom(f)
+    ok = len(emp) == 1 and bool(bsws)
     if ok:
-        true_edges = f.branch(emp[0], True)
-        borrowed = []
-        for sw in sws:
-            borrowed += sw.edges_for('Borrowed')
-        # result true only when both hold: cut either => the "returns is_empty result" block unreachable
-        ok = bool(borrowed) and f.edges_dominate(borrowed, emp[0].bb)
+        names, tab = bool_fn_table(f, {'borrowed': ba, 'empty': call_atom(f, emp[0])})
+        ok = all(tab[c] == ({True} if all(c) else {False}) for c in tab)
     ctx.check(ok, rule, 'is_no_op-definition', f,
               good='is_no_op = state still Borrowed AND no commands',
               bad='is_no_op is not "state Borrowed and output empty": a step that changes state or emits '
@@ -365,14 +372,27 @@ def r5_noop(ctx, F):
     g = F.body('actor::is_no_op_with_timer')
     ctx.touched(g)
     lens = g.calls_to('Vec::len')
-    eq1 = False
-    for (i, si, st) in g.assigns(lambda st: st['rv']['k'] == 'bin' and st['rv']['op'] == 'Eq'):
-        va, vb = g.val(st['rv']['a']), g.val(st['rv']['b'])
-        for x, y in ((va, vb), (vb, va)):
-            if x.kind == 'call' and g.call_at(x.key) in lens and y.kind == 'const' and y.key == 1:
-                eq1 = True
-    anyc = [c for x in bodies_with_closures(F, g) for c in x.calls_to('Iterator::any')]
-    ctx.check(eq1 and len(anyc) == 1, rule, 'is_no_op_with_timer-definition', g,
+    anyc = g.calls_to('Iterator::any')
+    (ba, bsws) = borrowed_atom(g)
+    one = [x for x in comparisons(g) if x[2] in ('eq', 'ne') and
+           any(noref(v).kind == 'call' and g.call_at(noref(v).key) in lens for v in x[:2]) and
+           any(noref(v).kind == 'const' and noref(v).key == 1 for v in x[:2])]
+    ok = len(anyc) == 1 and bool(bsws) and len(one) == 1
+    if ok:
+        x = one[0]
+        one_sw = [sw for sw in g.switches if sw.bb == x[5]]
+
+        def one_cons(val):
+            # edges of the `len == 1` test: x[3] are the edges on which the relation x[2] holds
+            want = x[3] if (x[2] == 'eq') == val else x[4]
+            labs = set(l for sw in one_sw for (l, t) in sw.edges if (sw.bb, t) in want)
+            return [(one_sw, lab) for lab in labs][:1]
+        atoms = {'borrowed': ba, 'renews': call_atom(g, anyc[0]),
+                 'single': (one_cons, lambda v: v.kind == 'bin' and g.switch_at(x[5]) is not None and
+                            v == g.switch_at(x[5]).on)}
+        names, tab = bool_fn_table(g, atoms)
+        ok = all(tab[c] == ({True} if all(c) else {False}) for c in tab)
+    ctx.check(ok, rule, 'is_no_op_with_timer-definition', g,
               good='is_no_op_with_timer = Borrowed AND exactly one command which re-arms the same timer',
               bad='is_no_op_with_timer no longer requires exactly one command re-arming the fired timer')
 
@@ -451,8 +471,21 @@ def r6_primitives(ctx, F):
                                              'Iterator::step_by', 'Iterator::skip_while', 'Iterator::take_while')
     ctx.check(ok, rule, 'Out::append', b, good='Out::append moves all commands of `other` to the end of self',
               bad='actor::Out::append does not append other\'s commands to self (order/direction wrong)')
-    b = F.body('actor::Out::<A>::broadcast')
+    b0 = F.body('actor::Out::<A>::broadcast')
+    b = F.norm(b0)
     snd = [c for c in b.calls if c.short.endswith('Out::send')]
+    if not snd:
+        # `self.0.extend(recipients.into_iter().map(|id| Command::Send(*id, msg.clone())))`: in normal form one
+        # Command::Send is handed on per recipient, and the collected commands are appended to self
+        from taint import origin_vals
+        ys = [c for c in b.calls_to('desugar::yield', 'Vec::push')
+              if c.args[1].get('k') in ('copy', 'move') and
+              all(v.kind == 'agg' and v.key[2] == 'Send' for v in (origin_vals(b, c.args[1]) or [V('other', 0)]))]
+        ext = [c for c in b.calls_to('Extend::extend', 'Vec::extend', 'Vec::append', 'Vec::push')
+               if noref(b.trace(b.val(c.args[0]), ('DerefMut::deref_mut',))).kind == 'arg' and
+               noref(b.trace(b.val(c.args[0]), ('DerefMut::deref_mut',))).key == 1]
+        if len(ys) == 1 and ext:
+            snd = ys
     loop = [c for c in b.calls_to('Iterator::next') if b.in_cycle(c.bb)]
     ok = len(snd) == 1 and len(loop) == 1 and b.edges_dominate(b.branch(loop[0], 'Some'), snd[0].bb) and \
         snd[0].bb not in b.reach([e[1] for e in b.branch(loop[0], 'Some')], cut_blocks=[snd[0].bb]) - {snd[0].bb}
@@ -463,7 +496,7 @@ def r6_primitives(ctx, F):
         src = noref(b.trace_chain(b.val(loop[0].args[0]), []) or b.val(loop[0].args[0]))
         src = iter_source(b, loop[0])
         ok = src.kind == 'arg' and src.key == 2
-    ctx.check(ok, rule, 'Out::broadcast', b, good='broadcast sends one message per recipient',
+    ctx.check(ok, rule, 'Out::broadcast', b0, good='broadcast sends one message per recipient',
               bad='actor::Out::broadcast does not send exactly one message to every recipient')
     # Timers / RandomChoices
     prim = [('actor::timers::Timers::<T>::set', ('HashSet::insert', 'HashableHashSet::insert'), 2),
